@@ -178,6 +178,23 @@ def r3_quote_all(chk: Check) -> None:
     t = unparse(pu.node, 100000)
     chk.expect("prepare_path(case.path, case.path_parameters)" in t, "C06.R3", pu, "URL path = template formatted with the case's path parameters", "path template is not filled from the case", pu.loc())
     chk.expect(phas("unquote(urljoin($b, quote($p)))", pu.node), "C06.R3", pu, "join does not double-encode (quote then unquote around urljoin)", "percent-encoded values are encoded twice / dot segments resolved", pu.loc())
+    # every join of a templated path onto a base (the WSGI transport goes through schemas.get_full_path): urljoin takes a
+    # relative part whose first segment looks like `scheme:` (`/{name}:cancel`, `/jobs:batchGet`) for an absolute URL and
+    # drops the base path - the relative part is percent-quoted first (':' hidden) and the result unquoted
+    n_join = 0
+    for f in P.all_functions():
+        if isinstance(f.node, ast.Lambda):
+            continue
+        for c in body_calls(f):
+            if last_attr(c) != "urljoin" or len(c.args) < 2 or isinstance(c.args[1], ast.Constant):
+                continue
+            if not any(w in unparse(c.args[1], 200) for w in ("path",)):
+                continue
+            n_join += 1
+            quoted = isinstance(c.args[1], ast.Call) and last_attr(c.args[1]) == "quote"
+            chk.decide(quoted, "C06.R3", f, f"urljoin(base, quote(<path>)) in {f.name}", f"`{unparse(c, 70)}` joins the raw path: a first segment of the form `abc:cancel` is parsed as a URL scheme, the base path and the leading slash are lost (the app behind the WSGI transport sees PATH_INFO `cancel`)", f.loc(c))
+    if n_join < 2:
+        chk.undecided("C06.R3", "<discovery>", f"urljoin sites={n_join}", "fewer path joins than confirmed by hand (2)")
 
 
 def r3b_template_ownership(chk: Check) -> None:
